@@ -233,6 +233,22 @@ CHECKS = {
         "headers are optional per the spec and exempt; reverse-direction truncation after the first FIN is a known "
         "finding (session ends at the first end-of-stream).",
     ),
+    "C14": (
+        "exploration",
+        "online frame-by-frame window/limit ledger in a scripted H2 peer, on a live worker",
+        "DESIGN.md section 3 C14",
+        "Scripted H2 clients over TLS and scripted h2c backends (independent codec with a per-stream/connection ledger) "
+        "against real workers: peer SETTINGS from boundary sets (initial window 0..2^31-1, max frame 16384..2^24-1, max "
+        "concurrent 0..100, header table 0..65536) changed mid-connection incl. shrinking below in-flight data; "
+        "WINDOW_UPDATE schedules (drip, burst, stream-only, connection-only, alternating, exact-fit); 1..32 streams, bodies "
+        "to 1 MB, shrunk socket buffers. Every DATA frame sozu sends is checked against the windows in force, every frame "
+        "against our max frame size, streams against our concurrency limit and id rules, HPACK updates against our table "
+        "size; bodies are keystreams (corruption localised); once credit >= remaining body the transfer must finish "
+        "(stalls re-run alone before counting); uploads larger than sozu's own window must complete.",
+        "Trusted: the harness codec's ledger (self-tested against itself and sozu); sozu's reapers and flood guards are "
+        "configured out of the way; known findings: MAX_CONCURRENT_STREAMS of a late SETTINGS, the cross-direction "
+        "head-of-line deadlock, ACK overtaking framed DATA, the loop-budget close.",
+    ),
 }
 
 ALL = ["C%02d" % i for i in range(1, 21)]
